@@ -41,11 +41,13 @@ pub fn check_flush_barrier(evs: &[Ev], capacity: usize) -> Result<usize, Fail> {
                 None => {
                     // never delivered: only legal if it was displaced by overflow
                     let start = pos_of(&|e| matches!(e, Ev::AppendStart(x) if x == id)).unwrap_or(ai);
-                    let later = evs[start..].iter().filter(|e| matches!(e, Ev::AppendEnd(x) if x != id)).count();
+                    // ... and by the time the flush completed: whatever is appended after the
+                    // completion cannot have pushed this entry out before it
+                    let later = evs[start..di.max(start)].iter().filter(|e| matches!(e, Ev::AppendEnd(x) if x != id)).count();
                     vensure!(
                         later >= capacity,
                         "flush:entry-neither-written-nor-displaced",
-                        "flush {f} completed but entry {id:?} (appended before the request) never reached the stream and only {later} entries were appended after it (capacity {capacity})"
+                        "flush {f} completed but entry {id:?} (appended before the request) never reached the stream and only {later} entries were appended between its append and the completion (capacity {capacity})"
                     );
                 }
             }
@@ -447,6 +449,14 @@ pub struct ManyCase {
     pub threads: u8,
     pub per_thread: u8,
     pub jitter: Vec<u8>,
+    /// 30 s flush interval: the periodic stream flush cannot fire during the case, so the only
+    /// stream flush that can stand between the last entry and a completion is the one the writer
+    /// performs for the waiters
+    #[serde(default)]
+    pub long_interval: bool,
+    /// shut_down() is called while the requests are still pending; they are awaited afterwards
+    #[serde(default)]
+    pub shutdown_first: bool,
 }
 
 pub fn check_many(case: &ManyCase) -> CaseResult {
@@ -454,7 +464,8 @@ pub fn check_many(case: &ManyCase) -> CaseResult {
     let log = Arc::new(EventLog::default());
     let gate = Gate::new(false);
     let stream = BqStream::new(vec![], gate.clone(), log.clone());
-    let (q, handle) = super::c01::build_queue(cap.max(case.before as usize + 1), case.boxed, Duration::from_millis(1), stream);
+    let interval = if case.long_interval { Duration::from_secs(30) } else { Duration::from_millis(1) };
+    let (q, handle) = super::c01::build_queue(cap.max(case.before as usize + 1), case.boxed, interval, stream);
     let before = case.before.max(1) as usize;
     for s in 0..before {
         let id = Id { p: 0, s: s as u32 };
@@ -503,16 +514,36 @@ pub fn check_many(case: &ManyCase) -> CaseResult {
     let total = counter.load(std::sync::atomic::Ordering::SeqCst) as usize;
     gate.open();
     let mut classes: Classes = vec![];
+    let mut q = Some(q);
+    let mut handle = Some(handle);
+    if case.shutdown_first {
+        // the requests are pending (or at most being handled): shutdown drains, flushes, and
+        // every one of them completes - none before its barrier
+        drop(q.take());
+        log.push(Ev::HandleDropStart);
+        no_panic("queue-shutdown", || handle.take().unwrap().shut_down())?;
+        log.push(Ev::HandleDropEnd);
+        classes.push("shutdown-with-requests-pending");
+    }
     for (i, mut f) in futures {
         if block_on_timeout(f.as_mut(), Duration::from_secs(10)).is_none() {
-            let _ = no_panic("queue-shutdown", || handle.shut_down());
+            if let Some(h) = handle.take() {
+                let _ = no_panic("queue-shutdown", || h.shut_down());
+            } else {
+                vfail!("flush:never-completes-after-shutdown", "flush {i} was pending when shut_down() was called; shut_down() returned and the flush still has not completed");
+            }
             return Ok(vec!["inconclusive-timeout"]);
         }
         log.push(Ev::FlushDone(i));
     }
     check_flush_barrier(&log.snapshot(), usize::MAX)?;
-    drop(q);
-    no_panic("queue-shutdown", || handle.shut_down())?;
+    drop(q.take());
+    if let Some(h) = handle.take() {
+        no_panic("queue-shutdown", || h.shut_down())?;
+    }
+    if case.long_interval {
+        classes.push("no-periodic-stream-flush-possible");
+    }
     if total > 32 {
         classes.push("more-than-32-requests-outstanding");
         classes.push("nt");
@@ -591,23 +622,33 @@ pub fn run(ctx: &mut Ctx) {
     ctx.explore(
         SubCfg::new(
             "c04-many-requests",
-            "real queue whose writer is held inside stream.next() for the first of 1-30 appended entries (fuel gate shut) while 1-4 threads issue 0-60 flush requests each (0-240 outstanding, none read by the writer yet); every future is polled once right away, then the gate opens and all are awaited. Oracle: the barrier over the event log for every request - none completes before the entries appended before it were written and the stream flushed after them. Non-trivial = more than 32 requests outstanding at once",
+            "real queue whose writer is held inside stream.next() for the first of 1-30 appended entries (fuel gate shut) while 1-4 threads issue 0-60 flush requests each (0-240 outstanding, none read by the writer yet); every future is polled once right away, then the gate opens and all are awaited - in 30% of the cases only after shut_down() was called with them pending; flush interval 1 ms or 30 s (with 30 s no periodic stream flush can fire, so the stream flush the barrier asks for must be the one performed for the waiters). Oracle: the barrier over the event log for every request - none completes before the entries appended before it were written and the stream flushed after them. Non-trivial = more than 32 requests outstanding at once",
             if q { 1_000 } else { 20_000 },
         )
         .threads(ctx.tier.pick(4, 8))
         .shrink_iters(60)
-        .mandatory(&["more-than-32-requests-outstanding", "more-than-128-requests-outstanding", "requests-from-several-threads"]),
+        .mandatory(&["more-than-32-requests-outstanding", "more-than-128-requests-outstanding", "requests-from-several-threads", "no-periodic-stream-flush-possible", "shutdown-with-requests-pending"]),
         || {
-            (1u8..40, any::<bool>(), 1u8..30, any::<u8>(), prop_oneof![0u8..12, 8u8..60], prop::collection::vec(any::<u8>(), 0..4)).prop_map(
-                |(capacity, boxed, before, threads, per_thread, jitter)| ManyCase {
+            (
+                1u8..40,
+                any::<bool>(),
+                1u8..30,
+                any::<u8>(),
+                prop_oneof![0u8..12, 8u8..60],
+                prop::collection::vec(any::<u8>(), 0..4),
+                any::<bool>(),
+                prop::bool::weighted(0.3),
+            )
+                .prop_map(|(capacity, boxed, before, threads, per_thread, jitter, long_interval, shutdown_first)| ManyCase {
                     capacity,
                     boxed,
                     before,
                     threads,
                     per_thread,
                     jitter,
-                },
-            )
+                    long_interval,
+                    shutdown_first,
+                })
         },
         check_many,
     );
